@@ -44,7 +44,7 @@ type Unzip struct {
 // Call the function with the arguments provided.
 func (f *Unzip) Call(s *slip.Scope, args slip.List, depth int) (result slip.Object) {
 	slip.CheckArgCount(s, depth, f, args, 1, 12)
-	data := []byte(slip.CoerceToOctets(args[0]).(slip.Octets))
+	data := []byte(slip.OctetsOf(args[0]))
 
 	r, err := gzip.NewReader(bytes.NewReader(data))
 	if err != nil {
